@@ -15,7 +15,7 @@
    arithmetic and alias streams and compared with it and with itself; BigInt aliasing is register coincidence
    in C16's method-sequence theorem. *)
 From Coq Require Import ZArith Bool List.
-From Apd Require Import Generated.Consts Model.Base Model.NumDigits Model.Decimal Model.Context Imp.Mem Imp.Ops Imp.AliasProofs Imp.CtxOps Imp.CtxProofs Imp.CtxMulProofs Imp.CtxRemProofs Imp.CtxQuoIntProofs Proofs.Core Proofs.SetExponent.
+From Apd Require Import Generated.Consts Model.Base Model.NumDigits Model.Decimal Model.Context Imp.Mem Imp.Ops Imp.AliasProofs Imp.CtxOps Imp.CtxProofs Imp.CtxMulProofs Imp.CtxRemProofs Imp.CtxQuoIntProofs Imp.CtxOps2 Imp.CtxQuantReduceProofs Proofs.Core Proofs.SetExponent.
 Open Scope Z_scope.
 
 Theorem C05_set d x m : wf_mem m -> mem_eq (snd (run (set_imp d x) m)) (put m d (set_pure (get m x))).
@@ -85,6 +85,27 @@ Theorem C05_context_quo_integer est c d x y m : wf_mem m ->
   (forall r0, r = Ok r0 -> mem_eq (snd (run (quo_integer_imp est c d x y) m)) (mem_after m d r)).
 Proof. exact (quo_integer_imp_pure est c d x y m). Qed.
 Print Assumptions C05_context_quo_integer.
+(* Context.Quo with quoSpecials: every operand field is read before the first write of the destination *)
+Theorem C05_context_quo est c d x y m : wf_mem m ->
+  let r := ctx_quo est c (get m x) (get m y) in
+  fst (run (quo_imp est c d x y) m) = outcome_of r /\
+  (forall r0, r = Ok r0 -> mem_eq (snd (run (quo_imp est c d x y) m)) (mem_after m d r)).
+Proof. exact (quo_imp_pure est c d x y m). Qed.
+Print Assumptions C05_context_quo.
+(* Context.Quantize and Context.Reduce: the operand is read (form, exponent), copied into the destination, and the rest
+   works on the destination alone *)
+Theorem C05_context_quantize est c e d x m : wf_mem m ->
+  let r := ctx_quantize est c (get m x) e in
+  fst (run (quantize_imp est c e d x) m) = outcome_of r /\
+  (forall r0, r = Ok r0 -> mem_eq (snd (run (quantize_imp est c e d x) m)) (mem_after m d r)).
+Proof. exact (quantize_imp_pure est c e d x m). Qed.
+Print Assumptions C05_context_quantize.
+Theorem C05_context_reduce est c d x m : wf_mem m ->
+  let r := do v <- ctx_reduce est c (get m x); Ok (fst v) in
+  fst (run (reduce_imp est c d x) m) = outcome_of r /\
+  (forall r0, r = Ok r0 -> mem_eq (snd (run (reduce_imp est c d x) m)) (mem_after m d r)).
+Proof. exact (reduce_imp_pure est c d x m). Qed.
+Print Assumptions C05_context_reduce.
 (* setAsNaN, used by every Context method: d may be the (signaling) NaN operand itself *)
 Theorem C05_set_as_nan c d x y m : wf_mem m ->
   should_set_as_nan (get m x) (option_map (get m) y) = true ->
